@@ -172,6 +172,11 @@ type Exec struct {
 	summaries    int
 	urlParts     map[string][]*Term
 	knownLen     map[string]*Term
+	syncDepth    int
+	onceDone     map[string]bool
+	syncMaps     map[string]*MapObj
+	atomicVals   map[string]Value
+	rawQueries   map[string]*reqInfo
 }
 
 type findingRegion struct {
@@ -187,7 +192,7 @@ func (e *Engine) NewExec(solver *Portfolio, decisions []int8) *Exec {
 		contracts: map[string]bool{}, xmlTokens: map[string]*xmlToken{},
 		timeStrs: map[string]*timeStr{}, certs: map[string]*certInfo{},
 		strAttrs: map[string]map[string]bool{}, reqs: map[*Cell]*reqInfo{}, urlInfos: map[*Cell]*urlInfo{},
-		urlParts: map[string][]*Term{}, knownLen: map[string]*Term{}, forkSites: map[string]int{}, pcSyms: map[string]bool{}, pcKeys: map[string]bool{}, renders: map[string]*renderInfo{}, sigCtx: map[*Cell]*sigCtxInfo{}, privKeys: map[*Cell]*Term{},
+		urlParts: map[string][]*Term{}, knownLen: map[string]*Term{}, onceDone: map[string]bool{}, syncMaps: map[string]*MapObj{}, atomicVals: map[string]Value{}, rawQueries: map[string]*reqInfo{}, forkSites: map[string]int{}, pcSyms: map[string]bool{}, pcKeys: map[string]bool{}, renders: map[string]*renderInfo{}, sigCtx: map[*Cell]*sigCtxInfo{}, privKeys: map[*Cell]*Term{},
 	}
 }
 
@@ -358,7 +363,10 @@ func (x *Exec) store(p *Pointer, v Value) {
 	if x.local != nil && p.Cell.ID <= x.local.cellMark {
 		panic(&localAbort{"store inside a summarised predicate"})
 	}
-	if p.Cell.Epoch < x.epoch && x.epoch > 0 && !x.E.isHarnessFn(x.curFn) {
+	// a write to provider-lifetime state: unsynchronised writes always count (two
+	// requests would race); writes under a lock / inside a sync.Once count when the
+	// written value depends on the request (another request would then see it)
+	if p.Cell.Epoch < x.epoch && x.epoch > 0 && !x.E.isHarnessFn(x.curFn) && (x.syncDepth == 0 || x.dependsOnRequest(v)) {
 		where := "?"
 		if x.curFn != nil {
 			where = x.curFn.String()
